@@ -99,6 +99,25 @@ Undone(d, undo) ==
 RCommitReversed(r, undo) == db' = [db EXCEPT ![r] = Undone(@, undo)]
 
 -----------------------------------------------------------------------------
+(* expire_tasks: deletes exactly the tasks whose status is deleted and whose  *)
+(* modification time is readable and more than 180 days in the past.  The     *)
+(* "modified" values are classes: "mold" and "medge_old" are older than the   *)
+(* threshold; recent, future, missing, empty, non-numeric and out-of-range    *)
+(* values are not.  "EXP1" (anti-vacuity): completed tasks expire too.        *)
+OldMod == {"mold", "medge_old"}
+Expirable(t) ==
+  /\ t.ex /\ "status" \in Props /\ "modified" \in Props
+  /\ (t.m["status"] = "deleted" \/ ("EXP1" \in Dev /\ t.m["status"] = "completed"))
+  /\ t.m["modified"] \in OldMod
+ExpireSet(ts) == {u \in Tasks : Expirable(ts[u])}
+(* the committed batch: one Delete per expirable task (any order), carrying the *)
+(* task's content as old value                                                *)
+IsExpireBatch(ts, batch) ==
+  /\ Len(batch) = Cardinality(ExpireSet(ts))
+  /\ {batch[i].u : i \in DOMAIN batch} = ExpireSet(ts)
+  /\ \A i \in DOMAIN batch : batch[i] = D(batch[i].u, ts[batch[i].u].m)
+
+-----------------------------------------------------------------------------
 (* rebuild_working_set(renumber).  `order` is the order in which the        *)
 (* storage happens to return the tasks that are not yet in the working set  *)
 (* (all_tasks has undefined order).                                        *)
